@@ -311,7 +311,9 @@ def get_style_label(obj):
         return getattr(style, "label", None)
     style_kwargs = getattr(obj, "_style_kwargs", None)
     if isinstance(style_kwargs, dict):
-        return style_kwargs.get("label", None)
+        label = style_kwargs.get("label", None)
+        # same conversion as the label setter of the style
+        return label if label is None else str(label)
     return None
 
 
